@@ -342,7 +342,7 @@ PROPERTIES = {
         "level": "exploration",
         "rule": ("declared module trees (2..25 nodes, depth <= 4, fan-out <= 4, sibling names from {a, ab, a1, b, a[0], abc, node, node1, node10, x_y, non-ASCII}, "
                  "0..4 start stages per module, nodes created directly or through a ModuleBlock with a scoped builder) inserted in EVERY valid order (parents first) "
-                 "for trees of <= 6 nodes and in random valid orders above; each module schedules a self message; a twelfth of the modules reports an error from at_sim_end (run() must return an error and every module is still torn down exactly once), a twelfth shuts itself down in its first start-up stage (its remaining declared stages are still delivered). All at_sim_start / handle_message / at_sim_end "
+                 "for trees of <= 6 nodes and in random valid orders above; each module schedules a self message; a twelfth of the modules reports an error from at_sim_end (run() must return an error and every module is still torn down exactly once), a twelfth shuts itself down in its first start-up stage (its remaining declared stages are still delivered), one module in 14 panics while it handles its self message (not caught: run() returns an error; every module - also that one - is still torn down exactly once after the last event). All at_sim_start / handle_message / at_sim_end "
                  "calls log into one sequence. Oracle from the declaration alone: start sequence == stage-major x depth-first pre-order with siblings in creation "
                  "order, exactly once per declared stage; at_sim_end exactly once per module and after the last event callback; current().path / name / parent / "
                  "child agree with the tree inside every callback; Sim::nodes() == declared set; duplicate path and missing parent rejected by a panic (fresh "
@@ -355,9 +355,10 @@ PROPERTIES = {
         ],
         "floor": {
             "quick": {"insertion_orders_executed": 100000, "start_calls_checked": 1000000, "trees_with_all_insertion_orders": 2000,
-                      "trees_with_prefix_sharing_siblings": 50000, "builder_rejection_probes": 10000, "insertion_orders_not_in_declaration_order": 90000},
+                      "trees_with_prefix_sharing_siblings": 50000, "builder_rejection_probes": 10000, "insertion_orders_not_in_declaration_order": 90000,
+                      "trees_with_a_module_that_panics_during_the_run": 20000},
             "thorough": {"insertion_orders_executed": 2000000, "start_calls_checked": 20000000, "trees_with_all_insertion_orders": 40000,
-                         "builder_rejection_probes": 200000},
+                         "builder_rejection_probes": 200000, "trees_with_a_module_that_panics_during_the_run": 400000},
         },
     },
     "C14": {
